@@ -594,7 +594,10 @@ type PairCase struct {
 }
 
 var pairNums = []float64{0, 1, -1, 2, 10, 9, 0.5, 100, 1e300, -1e300, 9007199254740993, 9223372036854775807, 1e-300, 3.0}
-var pairStrs = []string{"", "0", "1", "10", "9", "abc", "ABC", " 1", "1 ", "1e1", "+1", "0x10", "10x", "-1", ".5", "a", "é", "1.0", "010"}
+var pairStrs = []string{"", "0", "1", "10", "9", "abc", "ABC", " 1", "1 ", "1e1", "+1", "0x10", "10x", "-1", ".5", "a", "é", "1.0", "010",
+	// different texts that stand for the same number (beyond 2^53, beyond the float range): they are equal, and
+	// neither is less than the other, whatever their spelling
+	"9007199254740992", "9007199254740993", "18014398509481984", "18014398509481985", "9007199254740993.0", "1" + strings.Repeat("0", 309), "2" + strings.Repeat("0", 309), "0.1", "0.10", "100", "1e2"}
 
 func genVal(t *rapid.T) Val {
 	switch rapid.IntRange(0, 9).Draw(t, "vk") {
@@ -611,7 +614,23 @@ func genVal(t *rapid.T) Val {
 	}
 }
 
-func genPair(t *rapid.T) PairCase { return PairCase{A: genVal(t), B: genVal(t)} }
+// twins: two different texts standing for the same number (or for numbers that differ only beyond the 17th digit)
+var twins = [][2]string{{"9007199254740992", "9007199254740993"}, {"18014398509481984", "18014398509481985"}, {"9223372036854775807", "9223372036854775808"},
+	{"1" + strings.Repeat("0", 309), "2" + strings.Repeat("0", 309)}, {"0.1", "0.10"}, {"100", "1e2"}, {"007", "7"}, {"1.0", "1"}, {"+5", "5"}, {"10", "9"}, {"100000000000000000001", "100000000000000000002"},
+	{"0.30000000000000004", "0.30000000000000005"}, {"123456789012345678", "123456789012345679"}, {".5", "0.5"}, {"1e400", "2e400"}, {"-0", "0"}}
+
+func genPair(t *rapid.T) PairCase {
+	if rapid.IntRange(0, 7).Draw(t, "twin") == 0 {
+		tw := rapid.SampledFrom(twins).Draw(t, "tw")
+		kind := func(l string) string { return rapid.SampledFrom([]string{"field", "field", "field", "str"}).Draw(t, l) }
+		c := PairCase{A: Val{Kind: kind("ka"), Str: h.Str(tw[0])}, B: Val{Kind: kind("kb"), Str: h.Str(tw[1])}}
+		if rapid.Bool().Draw(t, "swap") {
+			c.A, c.B = c.B, c.A
+		}
+		return c
+	}
+	return PairCase{A: genVal(t), B: genVal(t)}
+}
 
 func (v Val) source(field int) string {
 	switch v.Kind {
